@@ -1528,11 +1528,11 @@ def class_counters(res, case, o, fam):
         res.count("class.cross-process: cases repeated in another interpreter with another PYTHONHASHSEED")
 
 
-def run_property(ctx, res, prop, oracle, rule):
+def run_property(ctx, res, prop, oracle, rule, extra_stream=None):
     res.rule = rule
     rng = ctx.subrng(prop, "prep")
     frng = ctx.subrng(prop, "flags")
-    per_op = ctx.scale(46, 560, 200)
+    per_op = ctx.scale(41, 540, 200)
     todo = []
     for op in OPS:
         for j in range(per_op):
@@ -1608,6 +1608,8 @@ def run_property(ctx, res, prop, oracle, rule):
                     c2 = dict(c, xproc=hs)
                     res.fail("the result depends on PYTHONHASHSEED (same screen, parameters and generator seed in another interpreter)", c2,
                              g, d, signature="%s:%s:hashseed" % (prop, c["op"]))
+    if extra_stream is not None:
+        extra_stream(ctx, res, prop, lines, expect, cases)
     if ctx.driver is not None:
         got = ctx.driver.ask(lines)
         for l, e, g, c in zip(lines, expect, got, cases):
